@@ -10,6 +10,20 @@
 #define R2D (180.0/NPY_PI)
 #define D2R (NPY_PI/180.0)
 
+// Cosine of the search radius used to select the triangles to examine.  For
+// micro-degree radii cos(radius) rounds to a cap smaller than the radius (or
+// to 1.0), and a point on a triangle edge can be filed a rounding error
+// across it, so the cover is widened by a few ulps.  The exact distance test
+// that follows decides which pairs are kept.
+static double cover_cosine(double rad_degrees)
+{
+    double d = cos(rad_degrees*D2R) - 4.0e-15;
+    if (d < -1.0) {
+        d = -1.0;
+    }
+    return d;
+}
+
 #if PY_MAJOR_VERSION >= 3
 static int *init_numpy(void) {
     import_array();
@@ -479,7 +493,7 @@ PyObject* Matcher::match(PyObject* ra_array, // all in degrees
     double rad=0, d=0;
     if (nrad == 1) {
         rad = *(double *) PyArray_GETPTR1((PyArrayObject *) radius_array, 0);
-        d = cos( rad*D2R );
+        d = cover_cosine(rad);
     }
 
     npy_intp ninput = PyArray_SIZE((PyArrayObject *) ra_array);
@@ -491,7 +505,7 @@ PyObject* Matcher::match(PyObject* ra_array, // all in degrees
 
         if (nrad > 1) {
             rad = *(double *) PyArray_GETPTR1((PyArrayObject *) radius_array, i_input);
-            d = cos( rad*D2R );
+            d = cover_cosine(rad);
         }
 
         // Find the triangles around this point
